@@ -51,11 +51,12 @@ func caseGen() *rapid.Generator[Case] {
 		max = 14
 	}
 	opts := gen.ScriptOpts{
-		Item:        itemGen(),
+		AllowProps: true, AllowRowErr: true, Item: itemGen(),
 		MinOps:      0,
 		MaxOps:      max,
 		MaxCells:    4,
 		ForceHdr:    true,
+		MultiHdr:    true, // a header row may be replaced, also by a narrower one
 		AllowMutate: true,
 		Creators:    []string{"core", "markdown", "markdown", "csv"},
 	}
